@@ -513,17 +513,18 @@ example : parseDecimal "2.50".toList ≠ parseInteger "2".toList := by decide
    they are equal in the XSD value space (`tagged`: primitive family × value).
    FALSE for the current code: an xs:string whose text is `{ns}local` equals an xs:QName expanding to
    the same string (`strq_counterexample`, finding C08-F5).  Proved on the region that excludes a
-   string compared with a QName. -/
-theorem value_space_partial (ns : NsMap) (t1 t2 : Ty) (l1 l2 : String) (a b : SVal)
-    (h1 : tagged ns (some t1) l1 = some a) (h2 : tagged ns (some t2) l2 = some b)
+   string compared with a QName; the two values may be read under different namespace maps (two
+   field nodes with different declarations in scope). -/
+theorem value_space_partial (ns1 ns2 : NsMap) (t1 t2 : Ty) (l1 l2 : String) (a b : SVal)
+    (h1 : tagged ns1 (some t1) l1 = some a) (h2 : tagged ns2 (some t2) l2 = some b)
     (hg : ¬ (t1.prim = .string ∧ t2.prim = .qname) ∧ ¬ (t1.prim = .qname ∧ t2.prim = .string)) :
-    untagged ns (some t1) l1 = untagged ns (some t2) l2 ↔ a = b := by
+    untagged ns1 (some t1) l1 = untagged ns2 (some t2) l2 ↔ a = b := by
   simp only [tagged, Option.map_eq_some_iff] at h1 h2
   obtain ⟨x, hx, rfl⟩ := h1
   obtain ⟨y, hy, rfl⟩ := h2
   simp only [untagged, hx, hy, Option.some.injEq, Prod.mk.injEq]
-  have sx := valOf_shape ns t1 l1 x hx
-  have sy := valOf_shape ns t2 l2 y hy
+  have sx := valOf_shape ns1 t1 l1 x hx
+  have sy := valOf_shape ns2 t2 l2 y hy
   constructor
   · intro h
     subst h
@@ -536,6 +537,125 @@ example : tagged [] (some .integer) "01" = some (.decimal, .num 1 0) := by decid
 theorem strq_counterexample :
     untagged [("p", "urn:a")] (some .string) "{urn:a}x" = untagged [("p", "urn:a")] (some .qname) "p:x" ∧
     tagged [("p", "urn:a")] (some .string) "{urn:a}x" ≠ tagged [("p", "urn:a")] (some .qname) "p:x" := by
+  decide
+
+/-! ### QName fields are resolved with the declarations in scope of the node that carries them -/
+
+/-- **stack discipline** (unbounded trees, any placement of xmlns declarations): along the walk of
+    `raw_decode` — `set_xmlns_context` before every child (groups.py:1008), the purge after the
+    content (elements.py:833), *then* `collect_key_fields` (855) — the map read at the collect of
+    every element is exactly the declarations in scope of that element: nothing declared on a child,
+    a descendant or a preceding sibling is visible any more.  (`sibOk`: siblings are distinct
+    objects, the `context.obj is obj` test of the loop.) -/
+theorem ns_collect_scope (ns0 : NsMap) (root : Node) (hs : root.sibOk = true) :
+    nsCollects ns0 root = root.scopes ns0 := by
+  unfold nsCollects
+  rw [setCtx_root, nsWalk_spec root 0 ns0 [] hs (by simp)]
+
+theorem nsAt_eq_scopeAt (ns0 : NsMap) (root : Node) (hs : root.sibOk = true) (i : Nat) :
+    nsAt ns0 root i = scopeAt ns0 root i := by
+  unfold nsAt scopeAt
+  rw [ns_collect_scope ns0 root hs]
+
+/-- a selected node `1` with an attribute `p:x` and a trailing child `2` that rebinds `p` -/
+def trailingDecl : Node :=
+  .mk 1 0 "item" [⟨"f1", "p:x", some .qname, 0⟩] none "" []
+    [.mk 2 1 "note" [] (some .string) "x" [("p", "urn:b")] []]
+
+example : trailingDecl.sibOk = true := by decide
+
+/- Why the collect must come after the purge: right after the content of the element (the state
+   `nsWalkList` leaves) the map still holds the declarations of its last child.  A tree that reads
+   the field values at that point resolves `p:x` with the child's binding. -/
+theorem collect_before_purge_counterexample :
+    let st := (nsWalkList 1 trailingDecl.kids (setCtx 1 0 [] ⟨[("p", "urn:a")], []⟩)).2
+    parseQName st.cur "p:x".toList = some (.str "{urn:b}x") ∧
+    parseQName (nsAt [("p", "urn:a")] trailingDecl 1) "p:x".toList = some (.str "{urn:a}x") ∧
+    scopeAt [("p", "urn:a")] trailingDecl 1 = [("p", "urn:a")] := by
+  decide
+
+/-- the primitive family the XSD value of a field item belongs to -/
+def tagOf : Option Ty → Prim
+  | none => .string
+  | some t => t.prim
+
+theorem tagged_eq (ns : NsMap) (t : Option Ty) (l : String) :
+    tagged ns t l = (untagged ns t l).map fun v => (tagOf t, v) := by
+  cases t <;> simp [tagged, untagged, tagOf]
+
+theorem fieldResG_congr {α : Type} (c1 c2 : Nat → Option Ty → String → Option α) (f : List Path)
+    (n : Node) (h : ∀ it ∈ f.flatMap (·.items n), c1 it.1 it.2.1 it.2.2 = c2 it.1 it.2.1 it.2.2) :
+    fieldResG c1 f n = fieldResG c2 f n := by
+  unfold fieldResG
+  generalize f.flatMap (·.items n) = l at h
+  match l, h with
+  | [], _ => rfl
+  | [(o, t, lex)], h => simp only; rw [h (o, t, lex) (by simp)]
+  | _ :: _ :: _, _ => rfl
+
+/- Full statement: the value a field of a selected node contributes to its tuple is its value in
+   the XSD value space, a QName being resolved with the declarations in scope of the element that
+   carries it.  FALSE for the current tree when the field selects a child element that has xmlns
+   declarations of its own rebinding the prefix used (`field_scope_counterexample`, finding C08-F8):
+   the map of the *selected* node is used.  Proved on the region where the elements the field
+   reaches have the same declarations in scope as the selected node … -/
+theorem field_scope_partial (ns0 : NsMap) (root : Node) (f : List Path) (n : Node)
+    (hs : root.sibOk = true)
+    (hown : ∀ it ∈ f.flatMap (·.items n), scopeAt ns0 root it.1 = scopeAt ns0 root n.id) :
+    fieldResG (specConv ns0 root) f n =
+      fieldResG (fun o t l => (codeConv false ns0 root n.id o t l).map fun v => (tagOf t, v)) f n := by
+  apply fieldResG_congr
+  intro it hit
+  simp only [specConv, codeConv, Bool.false_eq_true, if_false]
+  rw [tagged_eq, hown it hit, nsAt_eq_scopeAt ns0 root hs]
+
+/-- … which contains every field that is an attribute of the selected node (or the node itself):
+    no guard is needed for `@name` / `.` fields, wherever xmlns declarations are placed -/
+theorem field_scope_self (ns0 : NsMap) (root : Node) (f : List Path) (n : Node)
+    (hs : root.sibOk = true) (hf : ∀ p ∈ f, p.desc = false ∧ p.steps = []) :
+    fieldResG (specConv ns0 root) f n =
+      fieldResG (fun o t l => (codeConv false ns0 root n.id o t l).map fun v => (tagOf t, v)) f n := by
+  apply field_scope_partial ns0 root f n hs
+  intro it hit
+  obtain ⟨p, hp, hit⟩ := List.mem_flatMap.mp hit
+  obtain ⟨hd, hst⟩ := hf p hp
+  have he : p.elems n = [n] := by simp [Path.elems, hd, hst, evalSteps]
+  unfold Path.items at hit
+  rw [he] at hit
+  cases ha : p.attr with
+  | none => simp [ha] at hit; rw [hit]
+  | some a =>
+    simp only [ha, List.flatMap_cons, List.flatMap_nil, List.append_nil, List.mem_map] at hit
+    obtain ⟨x, _, rfl⟩ := hit
+    rfl
+
+/-- the repaired tree (`fscope`): the full statement, no guard -/
+theorem field_scope_repaired (ns0 : NsMap) (root : Node) (f : List Path) (n : Node) :
+    fieldResG (specConv ns0 root) f n =
+      fieldResG (fun o t l => (codeConv true ns0 root n.id o t l).map fun v => (tagOf t, v)) f n := by
+  apply fieldResG_congr
+  intro it _
+  simp only [specConv, codeConv, if_true]
+  rw [tagged_eq]
+
+/-- the witness of finding C08-F8 (replayed on the real code by the harness):
+    `<item><f1 xmlns:p="urn:b">p:x</f1></item>` under `xmlns:p="urn:a"` -/
+def fieldDecl : Node :=
+  .mk 1 0 "item" [] none "" []
+    [.mk 2 1 "f1" [] (some .qname) "p:x" [("p", "urn:b")] []]
+
+def f1Path : List Path := [⟨false, [.child "f1"], none⟩]
+
+theorem field_scope_counterexample :
+    fieldResG (specConv [("p", "urn:a")] fieldDecl) f1Path fieldDecl
+      = some (.val (.qname, .str "{urn:b}x")) ∧
+    fieldRes false [("p", "urn:a")] fieldDecl f1Path fieldDecl = some (.val (.str "{urn:a}x")) ∧
+    fieldRes true [("p", "urn:a")] fieldDecl f1Path fieldDecl = some (.val (.str "{urn:b}x")) := by
+  decide
+
+example : fieldDecl.sibOk = true ∧
+    ¬ (∀ it ∈ f1Path.flatMap (·.items fieldDecl),
+        scopeAt [("p", "urn:a")] fieldDecl it.1 = scopeAt [("p", "urn:a")] fieldDecl fieldDecl.id) := by
   decide
 
 /-! ### ID / IDREF -/
